@@ -43,13 +43,8 @@ Definition wf_emitted (k : pkg) : bool := nonempty (k_name k) && negb (match k_l
 Definition s_dotnet_pe : bytes := [100;111;116;110;101;116;47;112;101]%N.
 Definition s_chrome_extensions : bytes := [99;104;114;111;109;101;47;101;120;116;101;110;115;105;111;110;115]%N.
 Definition known_no_location_extractors : list bytes := [s_dotnet_pe; s_chrome_extensions].
-(* sbom/spdx clears the name when a purl reference is rejected; with a CPE the package is still emitted *)
-Definition s_sbom_spdx : bytes := [115;98;111;109;47;115;112;100;120]%N.
-Definition spdx_import_cleared_name (k : pkg) : bool :=
-  beq (k_extractor k) s_sbom_spdx && match k_purl k with None => true | Some _ => false end &&
-  negb (match k_cpes k with [] => true | _ => false end).
 Definition wf_emitted_D (k : pkg) : bool :=
-  (nonempty (k_name k) || spdx_import_cleared_name k) &&
+  nonempty (k_name k) &&
   (negb (match k_locations k with [] => true | _ => false end) || one_of (k_extractor k) known_no_location_extractors).
 
 Definition layer_in_int32 (k : pkg) : bool :=
